@@ -158,7 +158,8 @@ Deliver(p, b, ok) ==
    /\ Tick([op |-> "Deliver", p |-> p, b |-> b, ok |-> ok])
    /\ s' = Settle(EnqueueF(s, p, b, ok))
 
-NextWanted == Height(s) + 1
+\* the lowest block of the main chain that is not known yet (N + 1 when the chain is complete)
+NextWanted == IF (1..N) \subseteq s.known THEN N + 1 ELSE CHOOSE b \in 1..N : b \notin s.known /\ \A c \in 1..N : c \notin s.known => b <= c
 HonestStep(p) == NextWanted <= N /\ (Notify(p, NextWanted, "true") \/ Deliver(p, NextWanted, TRUE))
 Next ==
    \/ \E p \in Peers \ Hon, b \in Blocks \cup {0}, nk \in {"true", "zero", "far"} : Notify(p, b, nk)
